@@ -135,8 +135,8 @@ def _history(draw):
                 st.tuples(st.sampled_from(cmdrun.MODES), st.booleans()).map(lambda t: ["ac_mode", ac, t[0], t[1]]),
                 st.sampled_from(cmdrun.FANS).map(lambda f: ["ac_fan", ac, f]),
                 st.integers(5, 40).map(lambda t: ["ac_temp", ac, float(t)]),
-                st.tuples(st.sampled_from(cmdrun.TIMERS), st.integers(0, 1500)).map(lambda t: ["quick_duration", ac, t[0], t[1]]),
-                st.tuples(st.sampled_from(cmdrun.TIMERS), st.integers(0, 23), st.integers(0, 59)).map(lambda t: ["timer_time", ac, *t]),
+                st.tuples(st.sampled_from(cmdrun.TIMERS), st.integers(0, 1500), cmdrun._MILLIS).map(lambda t: ["quick_duration", ac, *t]),
+                st.tuples(st.sampled_from(cmdrun.TIMERS), st.integers(0, 23), st.integers(0, 59), cmdrun._MILLIS).map(lambda t: ["timer_time", ac, *t]),
                 st.sampled_from(cmdrun.TIMERS).map(lambda t: ["timer_clear", ac, t]),
                 st.just(["updates"]),
             ]
